@@ -30,6 +30,8 @@ if P:
     REPS = PART.reps(hs.SEED)
     K = PART.K
     SLICES_OK = LEXER in ('basic', 'contextual')
+    ONERR_OK = PARSER == 'lalr'
+    NJUNK = P.get('njunk', len(JUNK))
     REPRS = ['bytes', 'slice_str', 'slice_bytes', 'slice_str_neg', 'whole_slice'] if SLICES_OK else ['bytes', 'whole_slice']
 
 
@@ -70,9 +72,13 @@ def _coords_ok(t, buf, family):
     return True
 
 
-def _run(lk, arg, shift, buf):
+def _skip(e):
+    return True
+
+
+def _run(lk, arg, shift, buf, onerr=False):
     try:
-        t = lk.parse(arg)
+        t = lk.parse(arg, on_error=_skip) if onerr else lk.parse(arg)
         return ('tree', _norm(t, shift, buf)), t
     except UnexpectedInput as e:
         pos = e.pos_in_stream
@@ -86,16 +92,18 @@ def _run(lk, arg, shift, buf):
 JUNK = [('', ''), ('\n', ''), ('a', ' '), ('(', ')'), (' ', '\n'), ('#', 'x'), ('', '\n\n'), ('ab\n', '')]
 
 
-def _body(rec, cs, jk, ri):
+def _body(rec, cs, jk, ri, onerr):
     text = hs.class_string(cs, REPS)
-    junk1, junk2 = JUNK[hs.sel(jk, len(JUNK))]
+    junk1, junk2 = JUNK[hs.sel(jk, NJUNK)]
     ri = hs.sel(ri, len(REPRS))
     rep = REPRS[ri]
+    # the documented error recovery (on_error returning True skips the offending character / token): LALR only
+    onerr = bool(onerr) and PARSER == 'lalr'
     family = 'basic' if LEXER in ('basic', 'contextual') else 'dynamic'
     with hs.untraced():
         # realised: all three strings are concrete here
-        rec['key'] = [junk1, text, junk2, rep]
-        ref, ref_tree = _run(S, text, 0, text)
+        rec['key'] = [junk1, text, junk2, rep, onerr]
+        ref, ref_tree = _run(S, text, 0, text, onerr)
         rec['nontrivial'] = ref[0] == 'tree' and len(text) > 0
         rec['count'] = {'cases': 1, 'accepted': int(ref[0] == 'tree')}
         if ref_tree is not None:
@@ -106,13 +114,13 @@ def _body(rec, cs, jk, ri):
             if junk1 or junk2:
                 return True
             buf = text.encode('ascii')
-            got, tree = _run(B, buf, 0, buf)
+            got, tree = _run(B, buf, 0, buf, onerr)
         elif rep == 'whole_slice':
             if junk1 or junk2:
                 return True
             buf = text
             try:
-                got, tree = _run(S, TextSlice(text, 0, len(text)), 0, buf)
+                got, tree = _run(S, TextSlice(text, 0, len(text)), 0, buf, onerr)
             except TypeError as e:
                 return hs.fail(rec, 'a TextSlice covering the complete text is refused: %s' % e, text=repr(text), lexer=LEXER)
         else:
@@ -123,13 +131,13 @@ def _body(rec, cs, jk, ri):
                 if not junk2:
                     return True
                 buf = full
-                got, tree = _run(S, TextSlice(full, a - len(full), b - len(full)), a, buf)
+                got, tree = _run(S, TextSlice(full, a - len(full), b - len(full)), a, buf, onerr)
             elif rep == 'slice_str':
                 buf = full
-                got, tree = _run(S, TextSlice(full, a, b), a, buf)
+                got, tree = _run(S, TextSlice(full, a, b), a, buf, onerr)
             else:
                 buf = full.encode('ascii')
-                got, tree = _run(B, TextSlice(buf, a, b), a, buf)
+                got, tree = _run(B, TextSlice(buf, a, b), a, buf, onerr)
         if got != ref:
             return hs.fail(rec, '%s differs from the str parse of the same text' % rep, text=repr(text), junk=[junk1, junk2], got=repr(got)[:300], want=repr(ref)[:300])
         if tree is not None:
@@ -139,12 +147,12 @@ def _body(rec, cs, jk, ri):
     return True
 
 
-def check(cs: List[int], jk: int, ri: int) -> bool:
+def check(cs: List[int], jk: int, ri: int, onerr: bool) -> bool:
     """
-    pre: len(cs) <= L and (PIN is None or (len(cs) >= 1 and cs[0] == PIN) or (len(cs) == 0 and PIN == 0))
+    pre: len(cs) <= L and (PIN is None or (len(cs) >= 1 and cs[0] == PIN) or (len(cs) == 0 and PIN == 0)) and (ONERR_OK or not onerr)
     post: _
     """
-    return hs.run_path(_body, (cs, jk, ri), corner=lambda cs, jk, ri: len(cs) == L and hs.sel(cs[L - 1], K) == K - 1 and hs.sel(jk, len(JUNK)) == 0)
+    return hs.run_path(_body, (cs, jk, ri, onerr), corner=lambda cs, jk, ri, onerr: len(cs) == L and hs.sel(cs[L - 1], K) == K - 1 and hs.sel(jk, NJUNK) == 0)
 
 
 def plan(tier, seed):
@@ -161,7 +169,7 @@ def plan(tier, seed):
             Jg = 1
             for pin in (range(k) if Lg >= 3 else [None]):
                 slices.append({'id': '%s:%s:%s:L%d%s' % (g, parser, lexer, Lg, '' if pin is None else ':pin%d' % pin), 'mode': 'realised',
-                               'params': {'g': g, 'parser': parser, 'lexer': lexer, 'L': Lg, 'J': Jg, 'pin': pin}, 'timeout': 400 if quick else 3000,
+                               'params': {'g': g, 'parser': parser, 'lexer': lexer, 'L': Lg, 'J': Jg, 'pin': pin, 'njunk': (4 if Lg >= 3 else 8) if quick else 8}, 'timeout': 400 if quick else 3000,
                                'twin': pin in (None, k - 1), 'bound': {'chars': Lg, 'junk': Jg, 'classes': k}})
     meta = {
         'rule': 'one path per (class-string, junk prefix, junk suffix, representation); non-trivial = accepted non-empty text',
